@@ -332,6 +332,11 @@ func c14W4(b *core.B, r *core.Rng, rounds int) {
 	for round := 0; round < rounds; round++ {
 		body := genProgram(r, 1, func(g *pGen) { g.noAssign = true; g.noFail = true })
 		loopInBlock := ""
+		if round%16 == 15 {
+			// the stored block calls a template function that calls itself 200 deep: how deep one execution
+			// is nested is its own affair, the executions that replay the block do not add up
+			loopInBlock = "<% let deep = fn(n) { if (n == 0) { return 0 } return 1 + deep(n - 1) } %>{<%= deep(200) %>}"
+		}
 		if round%3 == 2 {
 			// the stored block has a loop of its own that a helper's block leaves with break
 			loopInBlock = "<%= for (i) in [1, 2, 3] { %><%= cap() { %><%= i %><% if (i == 2) { break } %>,<% } %><% } %>"
